@@ -33,6 +33,8 @@ TEXT_POOL = ["1234", "-17", "0", "true", "FALSE", "TRUE", "false", "hello", "Tes
              "2147483647", "12abc", "3.5", "0.25", "1e3", "-2.5e-1", "", "{}", "{x}", "value with spaces", "7", "UPPER",
              # lists: element lengths in every order (the getter re-uses one scratch buffer), blanks and tabs as separators, with and without
              # a blank before the closing brace
+             # integers "in the usual form" are decimal whatever they start with (atoi): leading zeros, a 0x prefix, an explicit sign
+             "010", "0100", "09", "-012", "0x10", "+5", "0007", "00", "0129",
              "{10 5}", "{alpha be c}", "{12345 c2 1 }", "{ab\tcdef\tg}", "{1 22 333 22 1}", "{longest-first x}"]
 DOUBLES = {"1234": 1234.0, "-17": -17.0, "0": 0.0, "3.5": 3.5, "0.25": 0.25, "1e3": 1000.0, "-2.5e-1": -0.25, "2147483647": 2147483647.0, "7": 7.0}
 
@@ -111,6 +113,15 @@ def run(ctx):
             for _ in range(rng.randint(0, 5)):
                 r = rng.random()
                 lines.append(("kv", rng.randint(1, 3), rng.choice(texts)) if r < 0.7 else (rng.choice(["blank", "comment"]),))
+        files.append(lines)
+    # every text of the pool at least once, whatever the random choices were
+    for i in range(0, len(texts), 9):
+        chunk = texts[i:i + 9]
+        lines = []
+        for j, t in enumerate(chunk):
+            if j % 3 == 0:
+                lines.append(("section", j // 3 + 1))
+            lines.append(("kv", j % 3 + 1, t))
         files.append(lines)
     # long lines up to the 1024-byte limit
     for n in (900, 1000, 1015):
